@@ -250,6 +250,135 @@ class Fn:
         return self.note('stmt ' + str(k))
 
 
+# ---------------------------------------------------------------------------------------------------------------------
+# Control-flow skeletons (Generated/CFlowSource.lean): for the functions whose ORDER OF CALLS on every path is what the
+# properties are about (__config_read, config_read_file, config_write_file, config_clear, config_destroy), the body is
+# dumped as a tree of statements whose leaves are the normalised SOURCE TEXT of each simple statement / condition.
+FLOW_FUNCS = ['__config_read', 'config_read', 'config_read_string', 'config_read_file', 'config_write_file',
+              'config_clear', 'config_destroy']
+
+
+def _off(loc, end=False):
+    if 'expansionLoc' in loc:
+        loc = loc['expansionLoc']
+    o = loc.get('offset')
+    if o is None:
+        return None
+    return o + (loc.get('tokLen', 0) if end else 0)
+
+
+def _norm(text):
+    import re
+    text = re.sub(r'/\*.*?\*/', ' ', text, flags=re.S)
+    text = re.sub(r'//[^\n]*', ' ', text)
+    text = re.sub(r'\s+', ' ', text).strip()
+    text = re.sub(r' ?([^A-Za-z0-9_ ]) ?', r'\1', text)     # no blanks around punctuation
+    return text
+
+
+def _lean_str(t):
+    return '"' + t.replace('\\', '\\\\').replace('"', '\\"') + '"'
+
+
+class FlowFn:
+    def __init__(self, src):
+        self.src = src
+        self.bad = []
+
+    def text(self, n):
+        r = n.get('range', {})
+        a, b = _off(r.get('begin', {})), _off(r.get('end', {}), True)
+        if a is None or b is None or b < a:
+            self.bad.append('no-range ' + str(n.get('kind')))
+            return '?'
+        if 'expansionLoc' in r.get('end', {}):
+            # the range ends at the NAME of a function-like macro: take its argument list too
+            j = b
+            while j < len(self.src) and self.src[j:j + 1] in (b' ', b'\t', b'\n'):
+                j += 1
+            if self.src[j:j + 1] == b'(':
+                depth = 0
+                while j < len(self.src):
+                    c = self.src[j:j + 1]
+                    depth += (c == b'(') - (c == b')')
+                    j += 1
+                    if depth == 0:
+                        break
+                b = j
+        return _norm(self.src[a:b].decode('utf-8', 'replace'))
+
+    def seq(self, items):
+        items = [i for i in items if i != '.skip']
+        if not items:
+            return '.skip'
+        out = items[-1]
+        for i in reversed(items[:-1]):
+            out = '(.seq %s %s)' % (i, out)
+        return out
+
+    def flat(self, n):
+        """statement texts of a branch-free body, or None"""
+        k = n.get('kind')
+        if k == 'CompoundStmt':
+            out = []
+            for c in n.get('inner', []):
+                f = self.flat(c)
+                if f is None:
+                    return None
+                out += f
+            return out
+        if k in ('IfStmt', 'WhileStmt', 'ForStmt', 'DoStmt', 'SwitchStmt', 'ReturnStmt', 'GotoStmt', 'BreakStmt', 'ContinueStmt', 'LabelStmt'):
+            return None
+        return [self.text(n).rstrip(';')]
+
+    def stmt(self, n):
+        k = n.get('kind')
+        if k == 'CompoundStmt':
+            return self.seq([self.stmt(c) for c in n.get('inner', [])])
+        if k == 'NullStmt':
+            return '.skip'
+        if k == 'ReturnStmt':
+            return '(.ret %s)' % _lean_str(self.text(n['inner'][0]) if n.get('inner') else '')
+        if k == 'IfStmt':
+            if n.get('hasInit') or n.get('hasVar'):
+                self.bad.append('if-with-init'); return '(.other "if-with-init")'
+            inner = n['inner']
+            return '(.ite %s %s %s)' % (_lean_str(self.text(inner[0])), self.stmt(inner[1]),
+                                        self.stmt(inner[2]) if len(inner) > 2 else '.skip')
+        if k == 'WhileStmt':
+            body = self.flat(n['inner'][-1])
+            if body is None:
+                self.bad.append('loop-with-branches'); return '(.other "loop-with-branches")'
+            return '(.loop %s [%s])' % (_lean_str(self.text(n['inner'][0])), ', '.join(_lean_str(t) for t in body))
+        if k in ('ForStmt', 'DoStmt', 'SwitchStmt', 'GotoStmt', 'LabelStmt', 'BreakStmt', 'ContinueStmt'):
+            self.bad.append(k); return '(.other %s)' % _lean_str(k)
+        return '(.stmt %s)' % _lean_str(self.text(n).rstrip(';'))
+
+
+def generate_flow(repo, outdir, write_if_changed, decls_all):
+    info = {'functions': {}, 'problems': {}}
+    src = open(os.path.join(repo, 'lib', 'libconfig.c'), 'rb').read()
+    L = ['/- GENERATED by tools/ctranslate.py from lib/libconfig.c (clang AST + source ranges) - do not edit. -/',
+         'import LibconfigModel.CFlow', 'namespace Libconfig.Generated.CFlowSource', 'open Libconfig.CFlow', '']
+    for f in FLOW_FUNCS:
+        d = decls_all.get(f)
+        name = 'flow_' + (f[2:] + '_impl' if f.startswith('__') else f)
+        if d is None:
+            L.append('def %s : Flow := .other "missing"' % name)
+            info['functions'][f] = 'missing'
+            continue
+        fn = FlowFn(src)
+        body = [c for c in d['inner'] if c.get('kind') == 'CompoundStmt'][0]
+        L.append('def %s : Flow :=\n  %s' % (name, fn.stmt(body)))
+        L.append('')
+        info['functions'][f] = 'ok' if not fn.bad else 'partial'
+        if fn.bad:
+            info['problems'][f] = fn.bad
+    L += ['end Libconfig.Generated.CFlowSource', '']
+    write_if_changed(os.path.join(outdir, 'CFlowSource.lean'), '\n'.join(L))
+    return info
+
+
 def parse_docs(s):
     dec = json.JSONDecoder()
     i = 0
@@ -278,13 +407,15 @@ def generate(repo, outdir, write_if_changed):
                         '-DHAVE_USELOCALE', '-DHAVE_NEWLOCALE', '-DHAVE_FREELOCALE', '-DLIBCONFIG_STATIC',
                         '-I' + os.path.join(repo, 'lib'), src], capture_output=True, text=True)
     decls = {}
+    decls_all = {}
     if r.returncode == 0:
         try:
             tu = json.loads(r.stdout)
             for d in tu.get('inner', []):
-                if d.get('kind') == 'FunctionDecl' and d.get('name') in FUNCS and any(
-                        c.get('kind') == 'CompoundStmt' for c in d.get('inner', [])):
-                    decls[d['name']] = d
+                if d.get('kind') == 'FunctionDecl' and any(c.get('kind') == 'CompoundStmt' for c in d.get('inner', [])):
+                    decls_all[d['name']] = d
+                    if d.get('name') in FUNCS:
+                        decls[d['name']] = d
         except ValueError as e:
             info['error'] = 'json: ' + str(e)
     else:
@@ -309,6 +440,7 @@ def generate(repo, outdir, write_if_changed):
     L.append('def all : List Func := [%s]' % ', '.join(names))
     L += ['', 'end Libconfig.Generated.CSource', '']
     write_if_changed(os.path.join(outdir, 'CSource.lean'), '\n'.join(L))
+    info['flow'] = generate_flow(repo, outdir, write_if_changed, decls_all)
     return info
 
 
